@@ -31,9 +31,9 @@ type commitRec struct {
 type oracle struct {
 	w *World
 	// per origin: history of witness-checkpoint commits and mirror commits
-	wit    map[string][]*commitRec
-	mir    map[string][]*commitRec
-	immSeen map[string][32]byte
+	wit        map[string][]*commitRec
+	mir        map[string][]*commitRec
+	immSeen    map[string][32]byte
 	v1, v2, vm note.Verifier
 	keyOrigin  map[[32]byte]*glog
 	keyMirror  map[[32]byte]*glog
@@ -305,13 +305,23 @@ func (o *oracle) onResponse(rq *request) {
 
 func (o *oracle) respAddCheckpoint(rq *request) {
 	w := o.w
-	g := rq.g
 	want := map[string]int{"unknown-origin": 404, "bad-sig": 403, "old-mismatch": 409, "bad-proof": 422, "other-fork": 422,
 		"malformed-old": 400, "noncanonical-old": 400, "extension": 400, "old-gt-new": 400, "no-separator": 400, "bad-root": 422, "": 200}[rq.defect]
 	if rq.defect == "old-gt-new" && rq.old != rq.rec0N {
 		want = 409
 	}
 	w.sim.Probe(fmt.Sprintf("resp.addckpt.%d", rq.code))
+	if w.shadowUsed {
+		// two witness processes: cached state may be stale, so the exact status
+		// is not predictable; the safety clauses below still apply
+		if rq.code == 200 {
+			o.check200(rq)
+		}
+		if rq.faulted && rq.code == 200 {
+			o.v("C14", "signature-after-failure", "r%d: cosignature released although a lock/storage operation of the request failed", rq.id)
+		}
+		return
+	}
 	if rq.faulted {
 		if rq.code == 200 {
 			o.v("C14", "signature-after-failure", "r%d: cosignature released although a lock/storage operation of the request failed (cas fault: %v)", rq.id, rq.casFaulted)
@@ -329,50 +339,57 @@ func (o *oracle) respAddCheckpoint(rq *request) {
 			o.v("C14", "conflict-body", "r%d: 409 body %q / content type %q, recorded size is %d", rq.id, rq.resp, rq.hdr.Get("Content-Type"), rq.rec0N)
 		}
 	case 200:
-		root := g.root(rq.branch, rq.n)
-		text := ckptText(g.origin, rq.n, root, "")
-		// only cosignature lines by the witness's keys, verifying over the re-encoded checkpoint
-		for _, l := range strings.SplitAfter(string(rq.resp), "\n") {
-			if l != "" && !strings.HasPrefix(l, "— "+witnessName+" ") {
-				o.v("C14", "response-lines", "r%d: response contains a line that is no witness cosignature: %q", rq.id, l)
-			}
-		}
-		n, err := note.Open([]byte(text+"\n"+string(rq.resp)), note.VerifierList(o.v1, o.v2))
-		if err != nil || len(n.Sigs) != 2 || len(n.UnverifiedSigs) != 0 {
-			o.v("C14", "response-signatures", "r%d: response is not exactly the two verifying witness cosignatures over (%s,%d,%s): %v", rq.id, g.origin, rq.n, root, err)
-			return
-		}
-		// durably recorded before release
-		found := false
-		for _, c := range o.wit[g.origin] {
-			if c.n == rq.n && c.root == root && c.step <= w.sim.Step {
-				found = true
-			}
-		}
-		if !found {
-			o.v("C14", "released-before-recorded", "r%d: cosignature for size %d released but no such checkpoint was committed to the lock store", rq.id, rq.n)
-		}
-		curN, _, _ := w.recorded(g)
-		if curN < rq.n {
-			o.v("C14", "released-before-recorded", "r%d: cosignature for size %d released while the lock store holds size %d", rq.id, rq.n, curN)
-		}
-		lines := strings.SplitAfter(string(rq.resp), "\n")
-		cs := &cosigned{g: g, branch: rq.branch, n: rq.n, text: text}
-		_, ll := splitSigLines(g.signedCheckpoint(rq.branch, rq.n, g.signer, ""))
-		cs.logSig = ll[0]
-		for _, l := range lines {
-			if l == "" {
-				continue
-			}
-			raw, _ := base64.StdEncoding.DecodeString(strings.TrimSuffix(strings.SplitN(l, " ", 3)[2], "\n"))
-			if len(raw) > 4 && uint32(raw[0])<<24|uint32(raw[1])<<16|uint32(raw[2])<<8|uint32(raw[3]) == o.v1.KeyHash() {
-				cs.w1 = l
-			} else {
-				cs.w2 = l
-			}
-		}
-		w.cosigned = append(w.cosigned, cs)
+		o.check200(rq)
 	}
+}
+
+// check200: what a 200 answer to add-checkpoint must be.
+func (o *oracle) check200(rq *request) {
+	w := o.w
+	g := rq.g
+	root := g.root(rq.branch, rq.n)
+	text := ckptText(g.origin, rq.n, root, "")
+	// only cosignature lines by the witness's keys, verifying over the re-encoded checkpoint
+	for _, l := range strings.SplitAfter(string(rq.resp), "\n") {
+		if l != "" && !strings.HasPrefix(l, "— "+witnessName+" ") {
+			o.v("C14", "response-lines", "r%d: response contains a line that is no witness cosignature: %q", rq.id, l)
+		}
+	}
+	n, err := note.Open([]byte(text+"\n"+string(rq.resp)), note.VerifierList(o.v1, o.v2))
+	if err != nil || len(n.Sigs) != 2 || len(n.UnverifiedSigs) != 0 {
+		o.v("C14", "response-signatures", "r%d: response is not exactly the two verifying witness cosignatures over (%s,%d,%s): %v", rq.id, g.origin, rq.n, root, err)
+		return
+	}
+	// durably recorded before release
+	found := false
+	for _, c := range o.wit[g.origin] {
+		if c.n == rq.n && c.root == root && c.step <= w.sim.Step {
+			found = true
+		}
+	}
+	if !found {
+		o.v("C14", "released-before-recorded", "r%d: cosignature for size %d released but no such checkpoint was committed to the lock store", rq.id, rq.n)
+	}
+	curN, _, _ := w.recorded(g)
+	if curN < rq.n {
+		o.v("C14", "released-before-recorded", "r%d: cosignature for size %d released while the lock store holds size %d", rq.id, rq.n, curN)
+	}
+	lines := strings.SplitAfter(string(rq.resp), "\n")
+	cs := &cosigned{g: g, branch: rq.branch, n: rq.n, text: text}
+	_, ll := splitSigLines(g.signedCheckpoint(rq.branch, rq.n, g.signer, ""))
+	cs.logSig = ll[0]
+	for _, l := range lines {
+		if l == "" {
+			continue
+		}
+		raw, _ := base64.StdEncoding.DecodeString(strings.TrimSuffix(strings.SplitN(l, " ", 3)[2], "\n"))
+		if len(raw) > 4 && uint32(raw[0])<<24|uint32(raw[1])<<16|uint32(raw[2])<<8|uint32(raw[3]) == o.v1.KeyHash() {
+			cs.w1 = l
+		} else {
+			cs.w2 = l
+		}
+	}
+	w.cosigned = append(w.cosigned, cs)
 }
 
 func (o *oracle) respAddEntries(rq *request) {
